@@ -7,7 +7,8 @@ sys.path.insert(0, os.path.dirname(os.path.abspath(__file__)))
 import common  # noqa: E402
 
 GENERATORS = {'gen_c16': 'NautilusVerif/Generated/C16.lean', 'gen_c14': 'NautilusVerif/Generated/C14.lean'}
-MODULES = ['NautilusVerif.Driver.All', 'NautilusVerif.Properties.C16', 'NautilusVerif.Properties.C14',
+MODULES = ['NautilusVerif.Driver.All', 'NautilusVerif.Properties.C16', 'NautilusVerif.Properties.C16Tie', 'NautilusVerif.Properties.C14',
+           'NautilusVerif.Properties.C14Tie',
            'NautilusVerif.Properties.C15', 'NautilusVerif.Properties.C13']
 
 
